@@ -221,20 +221,12 @@ impl GeneralTerm {
         }
     }
 
-    fn rename_conflicting_symbols(self, possible_conflicts: &IndexSet<Predicate>) -> Self {
+    fn rename_conflicting_symbols(self, new_names: &IndexMap<String, String>) -> Self {
         match self {
-            GeneralTerm::SymbolicTerm(SymbolicTerm::Symbol(s)) => {
-                let predicate = Predicate {
-                    symbol: s.clone(),
-                    arity: 0,
-                };
-                // TODO: increment new name while conflicts exist
-                if possible_conflicts.contains(&predicate) {
-                    GeneralTerm::SymbolicTerm(SymbolicTerm::Symbol(format!("{s}__s")))
-                } else {
-                    GeneralTerm::SymbolicTerm(SymbolicTerm::Symbol(s))
-                }
-            }
+            GeneralTerm::SymbolicTerm(SymbolicTerm::Symbol(s)) => match new_names.get(&s) {
+                Some(name) => GeneralTerm::SymbolicTerm(SymbolicTerm::Symbol(name.clone())),
+                None => GeneralTerm::SymbolicTerm(SymbolicTerm::Symbol(s)),
+            },
             x => x,
         }
     }
@@ -311,13 +303,13 @@ impl Atom {
         }
     }
 
-    fn rename_conflicting_symbols(self, possible_conflicts: &IndexSet<Predicate>) -> Self {
+    fn rename_conflicting_symbols(self, new_names: &IndexMap<String, String>) -> Self {
         Atom {
             predicate_symbol: self.predicate_symbol,
             terms: self
                 .terms
                 .into_iter()
-                .map(|t| t.rename_conflicting_symbols(possible_conflicts))
+                .map(|t| t.rename_conflicting_symbols(new_names))
                 .collect(),
         }
     }
@@ -460,8 +452,8 @@ impl Comparison {
         Comparison { term: lhs, guards }
     }
 
-    fn rename_conflicting_symbols(self, possible_conflicts: &IndexSet<Predicate>) -> Self {
-        let term = self.term.rename_conflicting_symbols(possible_conflicts);
+    fn rename_conflicting_symbols(self, new_names: &IndexMap<String, String>) -> Self {
+        let term = self.term.rename_conflicting_symbols(new_names);
 
         let mut guards = Vec::new();
         for old_guard in self.guards {
@@ -469,7 +461,7 @@ impl Comparison {
                 relation: old_guard.relation,
                 term: old_guard
                     .term
-                    .rename_conflicting_symbols(possible_conflicts),
+                    .rename_conflicting_symbols(new_names),
             };
             guards.push(new_guard);
         }
@@ -577,13 +569,13 @@ impl AtomicFormula {
         }
     }
 
-    fn rename_conflicting_symbols(self, possible_conflicts: &IndexSet<Predicate>) -> Self {
+    fn rename_conflicting_symbols(self, new_names: &IndexMap<String, String>) -> Self {
         match self {
             AtomicFormula::Atom(a) => {
-                AtomicFormula::Atom(a.rename_conflicting_symbols(possible_conflicts))
+                AtomicFormula::Atom(a.rename_conflicting_symbols(new_names))
             }
             AtomicFormula::Comparison(c) => {
-                AtomicFormula::Comparison(c.rename_conflicting_symbols(possible_conflicts))
+                AtomicFormula::Comparison(c.rename_conflicting_symbols(new_names))
             }
             x => x,
         }
@@ -928,10 +920,10 @@ impl Formula {
         join_nested_quantifiers(self.universal_closure())
     }
 
-    pub fn rename_conflicting_symbols(self, possible_conflicts: &IndexSet<Predicate>) -> Formula {
+    pub fn rename_conflicting_symbols(self, new_names: &IndexMap<String, String>) -> Formula {
         match self {
             Formula::AtomicFormula(a) => {
-                Formula::AtomicFormula(a.rename_conflicting_symbols(possible_conflicts))
+                Formula::AtomicFormula(a.rename_conflicting_symbols(new_names))
             }
             Formula::UnaryFormula {
                 connective,
@@ -939,7 +931,7 @@ impl Formula {
             } => Formula::UnaryFormula {
                 connective,
                 formula: formula
-                    .rename_conflicting_symbols(possible_conflicts)
+                    .rename_conflicting_symbols(new_names)
                     .into(),
             },
             Formula::BinaryFormula {
@@ -948,8 +940,8 @@ impl Formula {
                 rhs,
             } => Formula::BinaryFormula {
                 connective,
-                lhs: lhs.rename_conflicting_symbols(possible_conflicts).into(),
-                rhs: rhs.rename_conflicting_symbols(possible_conflicts).into(),
+                lhs: lhs.rename_conflicting_symbols(new_names).into(),
+                rhs: rhs.rename_conflicting_symbols(new_names).into(),
             },
             Formula::QuantifiedFormula {
                 quantification,
@@ -957,7 +949,7 @@ impl Formula {
             } => Formula::QuantifiedFormula {
                 quantification,
                 formula: formula
-                    .rename_conflicting_symbols(possible_conflicts)
+                    .rename_conflicting_symbols(new_names)
                     .into(),
             },
         }
